@@ -229,7 +229,7 @@ fn ex_case(tier: Tier) -> BoxedStrategy<ExCase> {
         3 => 6usize..=30,
         // the wavelet psi answers predecessor queries itself only when 32 x |range| < K - 1 and the
         // range spans two context rows: a one-symbol needle occurring twice among > 65 symbols
-        2 => 31usize..=tier.pick(300, 500),
+        3 => 31usize..=tier.pick(300, 500),
     ];
     (alpha, 0u8..3, 1usize..=3, any::<bool>()).prop_flat_map(move |(a, fam, ndocs, words)| {
         let max_tokens = if a <= 30 { 36 } else if words { 40 } else { 130 };
@@ -249,14 +249,15 @@ fn ex_case(tier: Tier) -> BoxedStrategy<ExCase> {
             (any::<u16>(), any::<u16>(), any::<u16>(), 0u8..6),
             0u8..4,
             0usize..MIXES.len() + 5,
+            (any::<u16>(), any::<u16>(), any::<u16>(), any::<u16>(), any::<bool>()),
         )
     })
-    .prop_map(|((a, fam, words), dict, docs, pairs, min_length, (stop, nstart, nlen, nkind), select_mode, mix)| {
+    .prop_map(|((a, fam, words), dict, docs, pairs, min_length, (stop, nstart, nlen, nkind), select_mode, mix, plant)| {
         let sym = |s: u16| code_point(fam, sel(s, a));
         // the first one or two symbols are the markers; they are frequent by construction
         let markers = if a >= 4 { 2 } else { 1 };
         let dict: Vec<Vec<u32>> = dict.iter().map(|w| w.iter().map(|s| code_point(fam, markers + sel(*s, a - markers))).collect()).collect();
-        let docs: Vec<ExDoc> = docs
+        let mut docs: Vec<ExDoc> = docs
             .into_iter()
             .map(|(tokens, bsel, bmode, selected)| {
                 let mut text = vec![];
@@ -298,6 +299,20 @@ fn ex_case(tier: Tier) -> BoxedStrategy<ExCase> {
             }
         };
         let mut pairs: Vec<(u32, u32)> = pairs.iter().map(|(x, y)| (pick(*x), pick(*y))).collect();
+        // Directed: in a large alphabet make one symbol occur two or three times and use it as end
+        // marker, so that the first backward step starts from a short interval over several rows.
+        let rare = !words && a > 30 && plant.4 && docs[0].text.len() >= 8;
+        if rare {
+            let t = &mut docs[0].text;
+            let n = t.len();
+            let e = t[sel(plant.0, n)];
+            t[sel(plant.1, n)] = e;
+            if plant.3 >= 0x8000 {
+                t[sel(plant.2, n)] = e;
+            }
+            let start = t[sel(plant.3, n)];
+            pairs.push((start, e));
+        }
         pairs.sort();
         pairs.dedup();
         // needle for exemplars_from_needle
@@ -317,7 +332,7 @@ fn ex_case(tier: Tier) -> BoxedStrategy<ExCase> {
             _ => t0[s0..(s0 + 2 + sel(nlen, 2)).min(t0.len())].to_vec(),
         };
         ExCase {
-            family: format!("{}:{}", if words { "marker+word tokens" } else { "uniform symbols" }, ["ascii", "dense-from-0", "sparse>2^20"][fam as usize]),
+            family: format!("{}:{}", if words { "marker+word tokens" } else if rare { "uniform symbols+rare end marker" } else { "uniform symbols" }, ["ascii", "dense-from-0", "sparse>2^20"][fam as usize]),
             mix: mix.min(MIXES.len() - 1),
             docs,
             pairs,
@@ -336,7 +351,7 @@ impl Property for Exemplars {
         "exemplars-correlate".into()
     }
     fn cases(&self, tier: Tier) -> u64 {
-        tier.pick(300, 5_000)
+        tier.pick(600, 8_000)
     }
     fn strategy(&self, ctx: &Ctx) -> BoxedStrategy<ExCase> {
         ex_case(ctx.tier)
@@ -367,8 +382,11 @@ impl Property for Exemplars {
         };
         let top = want.values().copied().max().unwrap_or(0);
         if c.pairs.iter().any(|(_, e)| {
-            let n = count_all(&c.docs[..1], &[*e]);
-            c.docs.len() == 1 && n >= 2 && 32 * n + 1 < k.len()
+            c.docs.iter().any(|d| {
+                let n = occurrences(&d.text, &[*e]).len();
+                let kd: BTreeSet<u32> = d.text.iter().copied().collect();
+                n >= 2 && 32 * n < kd.len()
+            })
         }) {
             o.label("end-marker-occurs>=2-times-and-32x-fewer-than-symbols(wavelet-predecessor-path)");
         }
